@@ -918,6 +918,13 @@ pub(crate) async fn commit_transaction(
                     // as the unit for backoff time slots.
                     // See SlotBackoff implementation for more details on how this works.
                     backoff = backoff.with_unit((start.elapsed().as_millis() * 11 / 10) as u32);
+                    // Verification hook: the back-off unit is derived from real elapsed time,
+                    // which a deterministic simulation cannot reproduce; use a fixed unit there.
+                    #[cfg(lance_verif)]
+                    if lance_core::utils::tokio::VERIF_INLINE_CPU.load(std::sync::atomic::Ordering::Relaxed)
+                    {
+                        backoff = backoff.with_unit(22);
+                    }
                 }
 
                 if next_attempt_i < num_attempts {
